@@ -216,6 +216,34 @@ def run(index, tier="quick", seed=0) -> Result:
                         f"{p_} is silently replaced by a default (no validation, no effect on the shape)")
             else:
                 res.ok("CT-5", f"{label}:{p_}", nontrivial=False)
+        # CT-4 reorder on accept path
+        if cls.name in ("ConvexPolygon", "ConvexSpheropolygon"):
+            # decided on what happens to the vertex array, not on the name of a helper: the constructor sorts by the polar
+            # angle about the normal (an argsort / lexsort with an arctan2-derived key) and then stores a row selection of
+            # `_vertices` back into `_vertices`
+            def _self_rows(e_):
+                return e_.type == "write" and e_.loc[1] == "_vertices" and e_.f.get("rhs") is not None and any(
+                    isinstance(t_, tuple) and t_ and t_[0] in ("copy-of", "reorder-of", "reverse-of") and any(
+                        isinstance(l_, tuple) and l_[-1] == "_vertices" for l_ in (t_[1] if isinstance(t_[1], tuple) else ())) for t_ in e_.rhs.tags)
+            stores = [e for e in r["events"] if _self_rows(e)]
+
+            def _angle_key(e_):
+                t_ = e_.f.get("target")
+                vs_ = [t_] + list(t_.items or ()) if t_ is not None else []
+                return any(v_ is not None and "polar-angle" in v_.tags for v_ in vs_)
+            sorts = [e for e in r["events"] if e.type == "reorder" and e.f.get("fn") in ("lexsort", "argsort", "sort") and _angle_key(e)]
+            unordered = [n_ for (v_, s_, n_) in r["returns"] if not any(sg_[0] == "<vertices-reordered>" for sg_ in s_.comp.get(tp.name, frozenset()))]
+            if stores and sorts and any(s_.time < w_.time for s_ in sorts for w_ in stores) and unordered:
+                res.bad("CT-4", label + ":path-without-reorder", f"{init.file}:{getattr(unordered[0], 'lineno', init.lineno)}", f"{label} orders the vertices "
+                        "counter-clockwise on some accepting paths only: another path returns with the vertices in the order given (with an explicit normal "
+                        "opposite to the input winding they stay clockwise about it)")
+            elif stores and sorts and any(s_.time < w_.time for s_ in sorts for w_ in stores):
+                res.ok("CT-4", label)
+            elif not stores:
+                res.bad("CT-4", label, f"{init.file}:{init.lineno}", f"{label} never orders the vertices counter-clockwise: no accepted path stores a "
+                        "reordering of the vertex array back into `_vertices`")
+            else:
+                raise AnalysisError(f"CT-4: {label} reorders its vertices in a way the analysis does not recognise (no sort by a polar angle)")
         # ---------------------------------------------------------------- CT-2 validation must-pass-through
         exits = [s.comp[tp.name] for (_v, s, _n) in r["returns"]]
         if not exits:
@@ -275,29 +303,6 @@ def run(index, tier="quick", seed=0) -> Result:
                 res.bad("CT-2", k + ":noraise", f"{init.file}:{init.lineno}", f"{label}: the test `{req}` does not control any raise ValueError")
             else:
                 res.ok("CT-2", k, sample={"ctor": label, "test": req})
-        # CT-4 reorder on accept path
-        if cls.name in ("ConvexPolygon", "ConvexSpheropolygon"):
-            # decided on what happens to the vertex array, not on the name of a helper: the constructor sorts by the polar
-            # angle about the normal (an argsort / lexsort with an arctan2-derived key) and then stores a row selection of
-            # `_vertices` back into `_vertices`
-            def _self_rows(e_):
-                return e_.type == "write" and e_.loc[1] == "_vertices" and e_.f.get("rhs") is not None and any(
-                    isinstance(t_, tuple) and t_ and t_[0] in ("copy-of", "reorder-of", "reverse-of") and any(
-                        isinstance(l_, tuple) and l_[-1] == "_vertices" for l_ in (t_[1] if isinstance(t_[1], tuple) else ())) for t_ in e_.rhs.tags)
-            stores = [e for e in r["events"] if _self_rows(e)]
-
-            def _angle_key(e_):
-                t_ = e_.f.get("target")
-                vs_ = [t_] + list(t_.items or ()) if t_ is not None else []
-                return any(v_ is not None and "polar-angle" in v_.tags for v_ in vs_)
-            sorts = [e for e in r["events"] if e.type == "reorder" and e.f.get("fn") in ("lexsort", "argsort", "sort") and _angle_key(e)]
-            if stores and sorts and any(s_.time < w_.time for s_ in sorts for w_ in stores):
-                res.ok("CT-4", label)
-            elif not stores:
-                res.bad("CT-4", label, f"{init.file}:{init.lineno}", f"{label} never orders the vertices counter-clockwise: no accepted path stores a "
-                        "reordering of the vertex array back into `_vertices`")
-            else:
-                raise AnalysisError(f"CT-4: {label} reorders its vertices in a way the analysis does not recognise (no sort by a polar angle)")
         # ---------------------------------------------------------------- CT-3 exception types
         excs = {}
         for (exc, sigs, ev) in tp.raises:
